@@ -147,7 +147,7 @@ impl BuildJob<'_> {
             sf.save(&mut ptx)?;
             // Fall through and treat it the same as a static file.
         }
-        if Path::new(&t).exists()
+        if Path::new(&t).symlink_metadata().is_ok()
             && !Path::new(&t).join(".").is_dir()
             && (sf.is_override || !sf.is_generated())
         {
